@@ -386,6 +386,9 @@ class Raised(Exception):
 # --------------------------------------------------------------------------------------------
 
 
+_IMPLICIT_EXC = {"max-empty": "ValueError", "index-absent": "ValueError", "brentq-bracket": "ValueError", "unpack": "ValueError",
+                 "zip-star-empty": "ValueError", "index": "IndexError", "index-store": "IndexError", "key": "KeyError",
+                 "div": "ZeroDivisionError", "none-attr": "AttributeError", "len-none": "TypeError"}
 MULF = z3.Function("MUL", z3.RealSort(), z3.RealSort(), z3.RealSort())
 PI = z3.Real("PI")
 PI_AXIOMS = [PI > z3.RealVal("3.14159265358"), PI < z3.RealVal("3.14159265359")]
@@ -525,6 +528,16 @@ class Exec:
             if goal:
                 return
             goal = z3.BoolVal(False)
+        # an implicit exception whose class the contract allows unconditionally is a raising path, not an obligation
+        exc = _IMPLICIT_EXC.get(what)
+        c = self.fn_stack[0][1] if self.fn_stack else None
+        if exc and c is not None and exc in c.raises and c.raises[exc] is None and len(self.fn_stack) == 1:
+            cs = st.clone()
+            cs.pc.append(z3.Not(goal))
+            if self.feasible(cs.pc):
+                st.forks.append(("raise", cs, exc))
+            st.pc.append(goal)
+            return
         key = (what, getattr(node, "lineno", 0), getattr(node, "col_offset", 0))
         n = self.site_counter.setdefault(key, len(self.site_counter))
         fq = _vshort(self)
@@ -646,7 +659,10 @@ class Exec:
         if is_disp_test(stmt.test):
             if all(is_dropped(b) for b in stmt.body) and not stmt.orelse:
                 return [("next", st, None)]
-            raise VCError(f"line {stmt.lineno}: `if disp` block contains more than prints; extraction refuses")
+            c0 = self.truth(self.eval(stmt.test, st, mod), st, stmt.test)
+            if c0 is False and not stmt.orelse:
+                return [("next", st, None)]  # display flag is concretely off on this path
+            raise VCError(f"line {stmt.lineno}: `if disp` block contains more than prints and the flag is not known to be off; extraction refuses")
         c = self.truth(self.eval(stmt.test, st, mod), st, stmt.test)
         body_noop = all(is_dropped(b) for b in stmt.body)
         else_noop = all(is_dropped(b) for b in stmt.orelse)
@@ -959,11 +975,42 @@ class Exec:
                         raise VCError(f"havoc of list {key}: {ex} (give a shape in the sidecar)")
             elif isinstance(o, IntMap) and id(o) not in done:
                 done.add(id(o))
-                n = fresh(shape_of(o), key, wf)
+                if isinstance(spec.shapes.get(key), Same):
+                    continue
+                n = fresh(spec.shapes.get(key) or shape_of(o), key, wf)
                 o.dom, o.val, o.n, o.key_at, o.pos_of = n.dom, n.val, n.n, n.key_at, n.pos_of
         for path_fn, shape in spec.modifies:
             o, attr = path_fn(SpecEnvRaw(st.env))
             o.fields[attr] = fresh(shape, attr, wf)
+        # frames of contract calls inside the loop body (method calls on objects known at the loop head)
+        for node in ast.walk(ast.Module(body=list(stmt.body), type_ignores=[])):
+            if not (isinstance(node, ast.Call) and isinstance(node.func, ast.Attribute)):
+                continue
+            try:
+                recv = self.eval(node.func.value, st, mod, quiet=True)
+            except (VCError, KeyError):
+                continue
+            if not isinstance(recv, PyObj):
+                continue
+            q = self.method_of(recv.cls, node.func.attr)
+            if q is None:
+                continue
+            variants = [v for v in self.reg.contracts.values() if v.qual == q]
+            for v in variants[:1] if len(variants) == 1 else variants:
+                for path_fn, shape in v.assigns:
+                    try:
+                        tgt = path_fn(SpecEnvRaw({"self": recv}))
+                    except (KeyError, AttributeError, VCError):
+                        continue
+                    if isinstance(tgt, tuple):
+                        o, attr = tgt
+                        if (id(o), attr) in done:
+                            continue
+                        done.add((id(o), attr))
+                        key = f"{_src(node.func.value)}.{attr}"
+                        if isinstance(spec.shapes.get(key), Same):
+                            continue
+                        o.fields[attr] = fresh(spec.shapes.get(key) or shape, attr, wf, env=SpecEnvRaw({"self": recv}))
         st.pc.extend(wf)
 
     def _check_inv(self, st, spec, ordinal, phase, line, extra):
@@ -1940,7 +1987,7 @@ class Exec:
             self.prove(st, f"{fq}/call#{k}:{short(c.qual)}/pre/{rname}", goal, "precondition", getattr(node, "lineno", 0))
         old = _clone(env, {})
         wf = []
-        result = fresh(c.returns, f"ret_{short(c.qual)}", wf) if c.returns is not None else None
+        result = fresh(c.returns, f"ret_{short(c.qual)}", wf, env=SpecEnvRaw(env)) if c.returns is not None else None
         st.pc.extend(wf)
         # exceptional outcomes (conditions are evaluated on the pre-state; ghost results may be mentioned)
         for exc, cond in (getattr(c, "raises_caller", None) or c.raises).items():
@@ -1966,7 +2013,10 @@ class Exec:
         if c.effects is not None:
             c.effects(self, st, env, result, node)
         if isinstance(result, tuple) and getattr(c, "ghost_results", 0):
-            result = result[0] if len(result) - c.ghost_results == 1 else result[: len(result) - c.ghost_results]
+            nreal = len(result) - c.ghost_results
+            ghost = result[nreal:]
+            st.env[f"_g_{short(c.qual).split('.')[-1]}_{k}"] = ghost[0] if len(ghost) == 1 else ghost
+            result = result[0] if nreal == 1 else result[:nreal]
         return result
 
     def _apply_frame(self, c, env, st):
